@@ -82,6 +82,7 @@ func main() {
 	var loopIter string
 	var loopWrites []string
 	loopVars := 0
+	loopAbsolute := ""
 	digestAppended := false
 	classify := func(e ast.Expr) string {
 		s := inc.Src(e)
@@ -139,12 +140,30 @@ func main() {
 			if x.Value != nil {
 				loopVars++
 			}
+			// roles of the two values IterRuntimeFiles yields: key = path to hash (source), value = destination name
+			keyName, valName := "\x00", "\x00"
+			if id, ok := x.Key.(*ast.Ident); ok {
+				keyName = id.Name
+			}
+			if id, ok := x.Value.(*ast.Ident); ok {
+				valName = id.Name
+			}
+			if c, ok := x.X.(*ast.CallExpr); ok && len(c.Args) == 4 {
+				loopAbsolute = inc.Src(c.Args[2])
+			}
 			ast.Inspect(x.Body, func(n ast.Node) bool {
 				if call, ok := n.(*ast.CallExpr); ok && strings.HasSuffix(inc.Src(call.Fun), ".Write") && len(call.Args) == 1 {
 					arg := inc.Src(call.Args[0])
-					if strings.HasPrefix(arg, "[]byte(") {
-						loopWrites = append(loopWrites, "name")
-					} else {
+					switch {
+					case arg == "[]byte{0}" || arg == "[]byte{0x0}" || arg == "[]byte{0x00}":
+						loopWrites = append(loopWrites, "nul") // terminator: names cannot contain it
+					case arg == "[]byte("+valName+")":
+						loopWrites = append(loopWrites, "name:dest")
+					case arg == "[]byte("+keyName+")":
+						loopWrites = append(loopWrites, "name:src")
+					case strings.HasPrefix(arg, "[]byte("):
+						loopWrites = append(loopWrites, "bytes:"+arg)
+					default:
 						loopWrites = append(loopWrites, "hash")
 					}
 				}
@@ -159,6 +178,7 @@ func main() {
 	out.Def("runtimeHashLoopIter", "String", xlib.LeanStr(loopIter))
 	out.Def("runtimeHashLoopWrites", "List String", xlib.LeanStrList(loopWrites))
 	out.Def("runtimeHashLoopVars", "Nat", strconv.Itoa(loopVars))
+	out.Def("runtimeHashLoopAbsoluteNames", "String", xlib.LeanStr(loopAbsolute))
 
 	// ---------------------------------------------------------------- ruleHash: the `if runtime { … }` block
 	ruh := inc.Func("ruleHash")
